@@ -53,7 +53,7 @@ def project_table(text, table, gcell):
     i = 0
     pat = table + '['
     decl = 'uint64_t %s[64][4096];' % table
-    text = text.replace(decl, 'uint64_t %s; uint64_t %s_sink;\nuint64_t *verif_cell_%s(uint32_t a, uint64_t b) { if (a == G_SQ && b == G_KEY) return &%s; %s_sink = nondet_u64(); return &%s_sink; }'
+    text = text.replace(decl, 'uint64_t nondet_u64(void);\nuint64_t %s; uint64_t %s_sink;\nuint64_t *verif_cell_%s(uint32_t a, uint64_t b) { if (a == G_SQ && b == G_KEY) return &%s; %s_sink = nondet_u64(); return &%s_sink; }'
                         % (gcell, gcell, table, gcell, gcell, gcell))
     while True:
         j = text.find(pat, i)
